@@ -14,12 +14,15 @@ Import ListNotations.
 Inductive exn := TypeError | ValueError | RuntimeError | KeyError | OtherError.
 
 (* DArr: numpy array (numeric = np.issubdtype(dtype, np.number), so bool/object/str arrays are not numeric);
-   DList: Python list; DNum: Python int/float; DOther: anything else that is not a node (str, dict, ...) *)
+   DList: Python list; DNum: Python int/float; DOther: anything else that is not a node (str, dict, ...);
+   DTeacher dim: a reservoirpy Node given as data (a "teacher"): Some d = initialised, output_dim d; None = never
+   initialised and without declared dimensions *)
 Inductive data :=
 | DArr (numeric : bool) (shape : list nat)
 | DList (items : list data)
 | DNum
-| DOther.
+| DOther
+| DTeacher (dim : option nat).
 
 Inductive res (A : Type) := ROk (a : A) | RErr (e : exn).
 Arguments ROk {A} a.
@@ -48,7 +51,7 @@ Definition atleast_2d (sh : list nat) : list nat :=
    allowed -> ValueError.  Returns the resulting shape. *)
 Definition check_vector (x : data) (allow_timespans : bool) : res (list nat) :=
   match x with
-  | DList _ | DOther => RErr TypeError
+  | DList _ | DOther | DTeacher _ => RErr TypeError
   | DNum => ROk [1; 1]
   | DArr num sh =>
       if negb num then RErr TypeError
@@ -105,7 +108,7 @@ Fixpoint check_n_sequences (x : data) (expected : option (list nat)) (ans ani at
                | RErr e => RErr e
                | ROk l => ROk (DList l)
                end
-      | DNum | DOther => RErr OtherError                        (* x.shape -> AttributeError *)
+      | DNum | DOther | DTeacher _ => RErr OtherError           (* x.shape -> AttributeError *)
       | DArr num sh =>
           if length sh <=? 2 then                               (* only one sequence *)
             match check_one_sequence x (Some [d]) ats with RErr e => RErr e | ROk sh' => ROk (DArr true sh') end
@@ -193,6 +196,7 @@ Record node := mkNode {
   params_version : nat;
   state_version : nat;
   trained : bool;
+  teacher : option (option nat);   (* node._teacher: a registered teacher node and its output_dim (None: not known) *)
   aliased : bool     (* Node.clean_buffers has run: `self._X = self._Y = []` makes the two default buffers ONE list (open finding of C11) *)
 }.
 
@@ -202,7 +206,7 @@ Definition fresh (k : kind) (ind : option nat) (outd : option nat) : node :=
           | KReservoir u | KIPReservoir u => Some u       (* output_dim=units in the constructor *)
           | _ => outd                                     (* Input(input_dim=d) passes output_dim=d itself: the harness says so *)
           end)
-         None 0 0 false false.
+         None 0 0 false None false.
 
 Fixpoint binom (n k : nat) : nat :=
   match n, k with
@@ -218,13 +222,13 @@ Definition set_in (n : node) (v : list nat) : res node :=
   match input_dim n with
   | Some d => if lnat_eqb d v then ROk n else RErr ValueError
   | None => ROk (mkNode (nkind n) (initialized n) (Some v) (output_dim n) (state_shape n)
-                        (params_version n) (state_version n) (trained n) (aliased n))
+                        (params_version n) (state_version n) (trained n) (teacher n) (aliased n))
   end.
 Definition set_out (n : node) (v : nat) : res node :=
   match output_dim n with
   | Some d => if d =? v then ROk n else RErr ValueError
   | None => ROk (mkNode (nkind n) (initialized n) (input_dim n) (Some v) (state_shape n)
-                        (params_version n) (state_version n) (trained n) (aliased n))
+                        (params_version n) (state_version n) (trained n) (teacher n) (aliased n))
   end.
 
 (* the node's initializer: xf = feature sizes of the first input(s) (x.shape[1]), yf = y.shape[1] if a target was given.
@@ -255,7 +259,7 @@ Definition initialize (n : node) (xf : list nat) (yf : option nat) : res node :=
           match set_out n1 o with
           | RErr e => RErr e
           | ROk n2 => ROk (mkNode (nkind n2) true (input_dim n2) (output_dim n2) (Some [1; o])
-                                  (S (params_version n2)) (S (state_version n2)) (trained n2) (aliased n2))
+                                  (S (params_version n2)) (S (state_version n2)) (trained n2) (teacher n2) (aliased n2))
           end
       end
   end.
@@ -278,20 +282,44 @@ Inductive result :=
 | Err (p : phase) (e : exn) (n : node)
 | Irregular.
 
+(* what check_xy returns for the target: nothing, checked data, or "a teacher node was registered" *)
+Inductive ycheck := YNone | YData (d : data) | YTeacher (td : option nat).
+
+(* _check_node_io, Node caller, when the data IS a node (callable with initialize / is_initialized / output_dim):
+   as input -> TypeError; as target -> register_teacher if the caller is trained online (ValueError when both
+   dimensions are known and differ — raised BEFORE caller._teacher is assigned), TypeError otherwise. *)
+Definition register_teacher (n : node) (td : option nat) : res ycheck :=
+  if has_online (nkind n) then
+    match output_dim n, td with
+    | Some o, Some t => if o =? t then ROk (YTeacher td) else RErr ValueError
+    | _, _ => ROk (YTeacher td)
+    end
+  else RErr TypeError.
+
 (* check_xy for a Node caller: x against input_dim, then y (if given) against output_dim with allow_n_inputs=False *)
-Definition check_xy (n : node) (x : data) (y : option data) (ans ani ats : bool) : res (data * option data) :=
+Definition check_xy (n : node) (x : data) (y : option data) (ans ani ats : bool) : res (data * ycheck) :=
+  match x with
+  | DTeacher _ => RErr TypeError                                   (* "Nodes can not be used as input" *)
+  | _ =>
   match check_n_sequences x (input_dim n) ans ani ats with
   | RErr e => RErr e
   | ROk x' =>
       match y with
-      | None => ROk (x', None)
+      | None => ROk (x', YNone)
+      | Some (DTeacher td) =>
+          match register_teacher n td with RErr e => RErr e | ROk yc => ROk (x', yc) end
       | Some yd =>
           match check_n_sequences yd (option_map (fun d => [d]) (output_dim n)) ans false ats with
           | RErr e => RErr e
-          | ROk y' => ROk (x', Some y')
+          | ROk y' => ROk (x', YData y')
           end
       end
+  end
   end.
+
+Definition set_teacher (n : node) (t : option (option nat)) : node :=
+  mkNode (nkind n) (initialized n) (input_dim n) (output_dim n) (state_shape n)
+         (params_version n) (state_version n) (trained n) t (aliased n).
 
 (* regular layouts *)
 Definition seq2 (d : data) : option (nat * nat) :=
@@ -332,15 +360,15 @@ Definition inputs_of (k : kind) (d : data) : option (nat * list nat) :=
 Definition bump_state (n : node) : node :=
   mkNode (nkind n) (initialized n) (input_dim n) (output_dim n)
          (match output_dim n with Some o => Some [1; o] | None => state_shape n end)
-         (params_version n) (S (state_version n)) (trained n) (aliased n).
+         (params_version n) (S (state_version n)) (trained n) (teacher n) (aliased n).
 Definition bump_params (n : node) (tr : bool) : node :=
   mkNode (nkind n) (initialized n) (input_dim n) (output_dim n) (state_shape n)
-         (S (params_version n)) (state_version n) (trained n || tr) (aliased n).
+         (S (params_version n)) (state_version n) (trained n || tr) (teacher n) (aliased n).
 
 (* Node.clean_buffers (called by fit on success AND, since 2730dd5, when its partial_fit raises) *)
 Definition clean_buffers (n : node) : node :=
   mkNode (nkind n) (initialized n) (input_dim n) (output_dim n) (state_shape n)
-         (params_version n) (state_version n) (trained n) true.
+         (params_version n) (state_version n) (trained n) (teacher n) true.
 
 Definition width (n : node) : nat := match output_dim n with Some o => o | None => 0 end.
 
@@ -360,34 +388,59 @@ Definition forward_op (n : node) (x' : data) : result :=
       end
   end.
 
-(* Node.train *)
-Definition train_op (n : node) (x' : data) (y' : option data) : result :=
-  match seq2 x', y' with
-  | Some (t, f), Some yd =>
-      match seq2 yd with
-      | Some (ty, m) =>
-          if negb (t =? ty) then Irregular
-          else match (if initialized n then ROk n else initialize n [f] (Some m)) with
-               | RErr e => Err PInit e n
-               | ROk n1 =>
-                   if (match input_dim n1 with Some d => lnat_eqb d [f] | None => false end)
-                      && (match output_dim n1 with Some o => o =? m | None => false end)
-                   then Ok (bump_params (bump_state n1) false) (Some (t, width n1))
-                   else Irregular
-               end
-      | None => Irregular
+(* Node.train, after check_xy (n already carries the teacher that check_xy registered, or a stale one left by an earlier
+   failed train: _base.train prefers node._teacher over the Y array).  The teacher is unregistered only on success. *)
+Definition train_op (n : node) (x' : data) (y' : ycheck) : result :=
+  match seq2 x' with
+  | None => Irregular
+  | Some (t, f) =>
+      (* target rows given as data: must be a regular (t, m) block when they are used *)
+      let ydata := match y' with YData yd => seq2 yd | _ => None end in
+      match teacher n with
+      | None =>
+          match ydata with
+          | Some (ty, m) =>
+              if negb (t =? ty) then Irregular
+              else match (if initialized n then ROk n else initialize n [f] (Some m)) with
+                   | RErr e => Err PInit e n
+                   | ROk n1 =>
+                       if (match input_dim n1 with Some d => lnat_eqb d [f] | None => false end)
+                          && (match output_dim n1 with Some o => o =? m | None => false end)
+                       then Ok (bump_params (bump_state n1) false) (Some (t, width n1))
+                       else Irregular
+                   end
+          | None => Irregular                                     (* no target / irregular layouts *)
+          end
+      | Some td =>
+          match y', ydata with
+          | YData _, None => Irregular
+          | _, _ =>
+              (* _init_vectors_placeholders: y from the data if given, else output_dim, else the teacher's output_dim *)
+              let yf := match ydata with Some (_, m) => Some m | None => td end in
+              match (if initialized n then ROk n else initialize n [f] yf) with
+              | RErr e => Err PInit e n
+              | ROk n1 =>
+                  if negb (match input_dim n1 with Some d => lnat_eqb d [f] | None => false end) then Irregular
+                  else match td with
+                       | None => Err PCore RuntimeError n1         (* the teacher cannot be initialised: "Impossible to get teacher" *)
+                       | Some tdim =>
+                           if width n1 =? tdim
+                           then Ok (set_teacher (bump_params (bump_state n1) false) None) (Some (t, width n1))
+                           else Irregular
+                       end
+              end
+          end
       end
-  | _, _ => Irregular                                             (* no target / irregular layouts *)
   end.
 
 (* Node.partial_fit (and IPReservoir.partial_fit, which does not look at Y) *)
-Definition partial_fit_op (n : node) (x' : data) (y' : option data) : res node + unit :=
+Definition partial_fit_op (n : node) (x' : data) (y' : ycheck) : res node + unit :=
   match seqs_of x' with
   | None => inr tt
   | Some xs =>
       let unsup := match nkind n with KIPReservoir _ => true | _ => false end in
       match (if unsup then Some (map (fun p => (fst p, 0)) xs)
-             else match y' with Some yd => seqs_of yd | None => None end) with
+             else match y' with YData yd => seqs_of yd | _ => None end) with
       | None => inr tt
       | Some ys =>
           if negb ((length xs =? length ys) && forallb (fun p => fst (fst p) =? fst (snd p)) (combine xs ys)) then inr tt
@@ -434,7 +487,8 @@ Definition step (n : node) (o : op) : result :=
     | OTrain x y =>
         match check_xy n x y false false true with
         | RErr e => Err PCheck e n
-        | ROk (x', y') => train_op n x' y'
+        | ROk (x', y') =>
+            train_op (match y' with YTeacher td => set_teacher n (Some td) | _ => n end) x' y'
         end
     | OPartialFit x y =>
         match check_xy n x (if unsup then None else y) true false true with
